@@ -720,7 +720,8 @@ func run(c *mcx.Ctx) {
 					}
 				}
 				// signature list alterations
-				for _, sv := range [][2][]string{{all, all}, {all, {"p256"}}, {{"ed5"}, {"ed5"}}} {
+				// (last pair: one supplied key did not sign - no rearrangement of the other's entries may stand in for it)
+				for _, sv := range [][2][]string{{all, all}, {all, {"p256"}}, {{"ed5"}, {"ed5"}}, {{"ed5"}, {"ed5", "p256"}}} {
 					for _, a := range sigAlterations(len(sv[0])) {
 						do(Case{Shape: shape, DSSE: dsse, Entry: entry, S: sv[0], V: sv[1], Kind: "sig", Alt: a})
 					}
